@@ -89,4 +89,47 @@ def liquidationFee (W U factor recvFactor size pmin : Nat) : Option LiqFees :=
       | none => none
       | some r => some { feeValue := fv, amount := amt, receiver := r }
 
+/-- `PositionFees` aggregation (`crates/model/src/params/fee.rs`): order fees (already split), borrowing and
+liquidation fees (total + receiver part). -/
+structure PosFees where
+  orderPool : Nat
+  orderRecv : Nat
+  borrow : Nat
+  borrowRecv : Nat
+  liq : Option (Nat × Nat)      -- liquidation fee amount, receiver part
+  deriving Repr
+
+/-- `BorrowingFees::fee_amount_for_pool` / `LiquidationFees::fee_amount_for_pool`: checked subtraction -/
+def poolPart (total recv : Nat) : Option Nat := checkedSub total recv
+
+/-- `PositionFees::for_pool` -/
+def PosFees.forPool (W : Nat) (f : PosFees) : Option Nat :=
+  match poolPart f.borrow f.borrowRecv with
+  | none => none
+  | some b =>
+    match checkedAdd W f.orderPool b with
+    | none => none
+    | some t =>
+      match f.liq with
+      | none => some t
+      | some (l, lr) =>
+        match poolPart l lr with
+        | none => none
+        | some lp => checkedAdd W t lp
+
+/-- `PositionFees::for_receiver` -/
+def PosFees.forReceiver (W : Nat) (f : PosFees) : Option Nat :=
+  match checkedAdd W f.orderRecv f.borrowRecv with
+  | none => none
+  | some t => match f.liq with | none => some t | some (_, lr) => checkedAdd W t lr
+
+/-- `PositionFees::total_cost_excluding_funding` -/
+def PosFees.totalCost (W : Nat) (f : PosFees) : Option Nat :=
+  match checkedAdd W f.orderPool f.orderRecv with
+  | none => none
+  | some a =>
+    match checkedAdd W a f.borrow with
+    | none => none
+    | some b => match f.liq with | none => some b | some (l, _) => checkedAdd W b l
+
 end Gmx
